@@ -4,15 +4,15 @@
 #ifndef VERIF_C11_DECODE_H
 #define VERIF_C11_DECODE_H
 
-enum { H_YMD, H_YWD, H_YD, H_YMCW, H_DAISY, H_SEXY, H_SEXYFMT, H_BIZDA, NHELD };
-static const char *const held_name[NHELD] = {"ymd", "ywd", "yd", "ymcw", "daisy", "epoch@", "epoch%s", "bizda"};
+enum { H_YMD, H_YWD, H_YD, H_YMCW, H_DAISY, H_SEXY, H_SEXYFMT, H_BIZDA, H_LDN, H_MDN, NHELD };
+static const char *const held_name[NHELD] = {"ymd", "ywd", "yd", "ymcw", "daisy", "epoch@", "epoch%s", "bizda", "ldn", "mdn"};
 /* input format handed to the parser (NULL: the standard parser, as the tools use without -i) */
-static const char *const held_ifmt[NHELD] = {NULL, NULL, "%Y-%jT%T", NULL, NULL, NULL, "%s", NULL};
+static const char *const held_ifmt[NHELD] = {NULL, NULL, "%Y-%jT%T", NULL, NULL, NULL, "%s", NULL, "ldn", "mdn"};
 /* output format (NULL: the tool's default for the held value); year-day values print
  * without their time by default, day counts print as a number, so both get an explicit one */
-static const char *const held_ofmt[NHELD] = {NULL, NULL, "%Y-%jT%T", NULL, "%FT%T", NULL, NULL, "%FT%T"};
+static const char *const held_ofmt[NHELD] = {NULL, NULL, "%Y-%jT%T", NULL, "%FT%T", NULL, NULL, "%FT%T", "%FT%T", "%FT%T"};
 /* how the printed text is laid out */
-static const int held_olayout[NHELD] = {H_YMD, H_YWD, H_YD, H_YMCW, H_YMD, H_YMD, H_YMD, H_YMD};
+static const int held_olayout[NHELD] = {H_YMD, H_YWD, H_YD, H_YMCW, H_YMD, H_YMD, H_YMD, H_YMD, H_YMD, H_YMD};
 
 /* text of (rd, sod) in representation H; sod may be 86400 (T24:00:00) for civil texts */
 static int
@@ -43,6 +43,15 @@ held_text(int h, int rd, int sod, char *buf, size_t bsz)
 			return 0;
 		}
 		snprintf(buf, bsz, "%04d-%02d-%02dbT%02d:%02d:%02d", p->y, p->m, p->bd, H, M, S);
+		return 1;
+	case H_LDN:
+	case H_MDN:
+		/* day numbers with a time part are decimal fractions of a day: only midnight and noon are
+		 * written exactly (N and N.5) */
+		if (sod != 0 && sod != 43200) {
+			return 0;
+		}
+		snprintf(buf, bsz, "%lld%s", (long long)(h == H_LDN ? rc_ldn(p->rd) : rc_mdn(p->rd)), sod ? ".5" : ".0");
 		return 1;
 	case H_SEXY:
 		snprintf(buf, bsz, "@%lld", (long long)p->unixd * 86400LL + sod);
